@@ -47,12 +47,6 @@ PROPS["C02"] = dict(
     trusted_base=["library models: vmap, pmap, lax.scan (carry-invariant = map), dot, max, argmax (first maximiser), take, reshape"],
     assumptions=SOLVER_ASSUME + ["the abstract problem satisfies WF-shape (N, A, E >= 1); transition / probability / state_to_index are uninterpreted functions of opaque vectors, so the result holds for every problem and every vector dimension"],
 )
-PROPS["C08"] = dict(
-    bounded=[dict(name="c08_runtime", script="harness_solvers.py", args=["--prop", "c08"], wall_s=300)],
-    level="proof", units=[U(V1, f"{VI}.{m}") for m in ["_get_span", "_get_max_diff", "_iteration_step", "solve"]]
-                       + [U(["contracts.logging_configs"], "mdpax.solvers.value_iteration.ValueIteration._setup_convergence_testing", only=["pos."])],
-    assumptions=SOLVER_ASSUME,
-)
 
 RV = "mdpax.solvers.relative_value_iteration.RelativeValueIteration"
 PV = "mdpax.solvers.periodic_value_iteration.PeriodicValueIteration"
@@ -72,11 +66,14 @@ PROPS["C04"] = dict(level="proof", bounded=[dict(name="c04_runtime", script="har
     replayers=[("*RelativeValueIteration*", "replay_c04.py")])
 PIM = V1 + ["contracts.pi"]
 PROPS["C05"] = dict(level="proof", bounded=[dict(name="c05_runtime", script="harness_solvers.py", args=["--prop", "c05"], wall_s=300)],
-    units=[U(PIM, f"{PI}.{m}") for m in ["_calculate_policy_value_state_batch", "_calculate_policy_values", "_evaluate_policy", "_iteration_step"]],
+    units=[U(PIM, f"{PI}.{m}") for m in ["_calculate_policy_value_state_batch", "_calculate_policy_values", "_evaluate_policy", "_iteration_step", "_initialize_policy", "_initialize_solver_state_elements"]]
+          + [U(PIM + ["contracts.rvi"], f"{PI}.solve", timeout_ms=20000, ignore=["*eval_converged_when_policy_declared_stable"])],
     lean=["eval_bound", "eval_bound_threshold"], assumptions=SOLVER_ASSUME)
 SAM = ["contracts.value_iteration", "contracts.semi_async"]
 PROPS["C06"] = dict(level="proof", bounded=[dict(name="c06_runtime", script="harness_solvers.py", args=["--prop", "c06"], wall_s=300)],
-    units=[U(SAM, f"{SA}._calculate_updated_value_scan_state_batches", timeout_ms=30000), U(SAM, f"{SA}._shuffle_states"), U(SAM, f"{SA}._reorder_values")],
+    units=[U(SAM, f"{SA}._calculate_updated_value_scan_state_batches", timeout_ms=30000), U(SAM, f"{SA}._shuffle_states"), U(SAM, f"{SA}._reorder_values"),
+           U(SAM + ["contracts.vi_solve"], f"{SA}._update_values", timeout_ms=20000), U(SAM + ["contracts.vi_solve"], f"{SA}._iteration_step", timeout_ms=20000),
+           U(SAM + ["contracts.vi_solve"], f"{SA}.solve", timeout_ms=20000), U(SAM + ["contracts.vi_solve"], f"{SA}._setup_config")],
     lean=["gs_fixed_point", "gs_fixed_converse", "perm_argsort_inv"], assumptions=SOLVER_ASSUME)
 PVM = V1 + ["contracts.periodic"]
 PROPS["C07"] = dict(level="proof", bounded=[dict(name="c07_runtime", script="harness_solvers.py", args=["--prop", "c07"], wall_s=300)],
@@ -99,6 +96,18 @@ PROPS["C20"] = dict(level="proof",
           + [U(C20M, f"{c}.__post_init__") for c in CFGS],
     replayers=[("*", "replay_c20.py")],
     assumptions=[ARITH, ENGINE])
+
+PROPS["C08"] = dict(
+    bounded=[dict(name="c08_runtime", script="harness_solvers.py", args=["--prop", "c08"], wall_s=300)],
+    level="proof",
+    units=[U(V1, f"{VI}.{m}") for m in ["_get_span", "_get_max_diff", "_iteration_step", "solve"]]
+        + [U(["contracts.logging_configs"], f"{VI}._setup_convergence_testing", only=["pos."])]
+        + [U(RVM, f"{SOLV}._initialize_values"), U(RVM, f"{RV}._iteration_step"), U(RVM, f"{RV}.solve", timeout_ms=20000)]
+        + [U(PVM, f"{PV}._iteration_step", timeout_ms=30000), U(PVM, f"{PV}.solve", pop=[f"{PV}._iteration_step"], timeout_ms=20000)]
+        + [U(SAM + ["contracts.vi_solve"], f"{SA}._iteration_step", timeout_ms=20000), U(SAM + ["contracts.vi_solve"], f"{SA}.solve", timeout_ms=20000)]
+        + [U(PIM + ["contracts.rvi"], f"{PI}.solve", timeout_ms=20000, ignore=["*eval_converged_when_policy_declared_stable"])],
+    assumptions=SOLVER_ASSUME + ["PeriodicValueIteration.solve requires value_history is not None (a converged solve with the default clear_value_history_on_convergence=True clears it; a further solve() then raises TypeError) - stated precondition, see DESIGN C08"],
+)
 
 HOOK_COMMITS = []
 NOT_APPLICABLE = {
